@@ -30,6 +30,9 @@ pub struct OracleState {
     pub idle_prev_valid: bool,
     /// idle ids at the start of the step in which a retain() ran its predicate (per op)
     pub retain_idle_at_lock: BTreeMap<usize, Vec<u32>>,
+    /// retain() calls in flight, and whether the idle queue was (or may have been) empty at some
+    /// moment of the call
+    pub retain_open: BTreeMap<usize, bool>,
     pub last_run_step: BTreeMap<usize, u64>,
     /// objects idle right before close() was invoked
     pub idle_at_close: Vec<u32>,
@@ -66,6 +69,7 @@ impl Default for OracleState {
             last_op_of_actor: BTreeMap::new(),
             idle_prev_valid: false,
             retain_idle_at_lock: BTreeMap::new(),
+            retain_open: BTreeMap::new(),
             last_run_step: BTreeMap::new(),
             idle_at_close: Vec::new(),
             closer: None,
@@ -339,6 +343,8 @@ pub fn on_close_done(w: &mut MWorld, opi: usize) {
 pub fn on_retain_invoke(w: &mut MWorld, opi: usize) {
     if is(w, "C09") {
         c03_on_invoke(w, opi);
+        let maybe_empty = !w.orc.idle_prev_valid || w.orc.idle_prev.is_empty();
+        let _ = w.orc.retain_open.insert(opi, maybe_empty);
     }
 }
 pub fn on_retain_done(w: &mut MWorld, opi: usize) {
@@ -522,6 +528,11 @@ pub fn after_step(w: &mut MWorld, _info: &SimInfo) -> Option<Violation> {
         if is(w, "C08") && !w.draining {
             if let Some(v) = c08_step(w, _info, sn) {
                 return Some(v);
+            }
+        }
+        if sn.idle.is_empty() {
+            for v in w.orc.retain_open.values_mut() {
+                *v = true;
             }
         }
         w.orc.idle_prev = sn.idle.clone();
@@ -1035,6 +1046,17 @@ pub fn c04_check_get(w: &MWorld, opi: usize) -> Option<Violation> {
                         && op.eff.2.map(|t| t > 0).unwrap_or(false)
                         && cfg.runtime;
                     if i == calls.len() && ended_early(&res) {
+                        return None;
+                    }
+                    // a per-call recycle timeout on a pool without runtime: the recycle future is
+                    // dropped unpolled and the call fails with NoRuntimeSpecified (C10)
+                    if *ek == CallKind::Recycle
+                        && op.eff.2.map(|t| t > 0).unwrap_or(false)
+                        && !cfg.runtime
+                        && !c.polled
+                        && i == calls.len()
+                        && res == OpRes::GetErr(ErrV::NoRuntime)
+                    {
                         return None;
                     }
                     if !is_recycle_timeout {
@@ -1552,6 +1574,16 @@ pub fn c09_retain_done(w: &mut MWorld, opi: usize) -> Option<Violation> {
     if dedup.len() != seen.len() {
         return c09("predicate_once_per_object", format!("predicate called more than once for an object: {:?}", seen));
     }
+    let maybe_empty = w.orc.retain_open.remove(&opi).unwrap_or(true);
+    if preds.is_empty() && !maybe_empty {
+        return c09(
+            "predicate_sees_every_idle_object",
+            format!(
+                "retain() returned without asking the predicate although the idle queue was never empty during the call (idle now: {:?})",
+                w.orc.idle_prev
+            ),
+        );
+    }
     if let Some(idle) = w.orc.retain_idle_at_lock.remove(&opi) {
         let mut idle = idle;
         idle.sort();
@@ -1904,7 +1936,13 @@ pub fn c06_get_return(w: &mut MWorld, opi: usize) -> Option<Violation> {
     let res = op.result.clone()?;
     if op.invoke_step > s {
         // invoked after close() returned
-        if res != OpRes::GetErr(ErrV::Closed) {
+        // C10 asks for NoRuntimeSpecified from a get() with a non-zero per-call timeout on a pool
+        // without runtime, C06 for Closed: where both apply either documented answer is accepted
+        let no_rt = !w.sc.pool.runtime
+            && (op.eff.0.map(|t| t > 0).unwrap_or(false)
+                || op.eff.1.map(|t| t > 0).unwrap_or(false)
+                || op.eff.2.map(|t| t > 0).unwrap_or(false));
+        if res != OpRes::GetErr(ErrV::Closed) && !(no_rt && res == OpRes::GetErr(ErrV::NoRuntime)) {
             return c06("get_after_close_is_closed", format!("get() invoked after close() returned gave {:?}", res));
         }
         w.cnt.probe("get_after_close_closed");
@@ -2041,7 +2079,7 @@ pub fn c10_get_return(w: &mut MWorld, opi: usize) -> Option<Violation> {
             w.cnt.probe("no_runtime_wait_checked");
         } else if res == OpRes::GetErr(ErrV::TimeoutWait) {
             let start = op.wait_start_ms.unwrap_or(now);
-            if now < start + wms {
+            if now < start.saturating_add(wms) {
                 return c10(
                     "wait_timeout_not_early",
                     format!("Timeout(Wait) {} ms after the call started waiting, wait timeout is {} ms", now - start, wms),
@@ -2222,7 +2260,7 @@ pub fn c10_quiescent(w: &mut MWorld, now_ms: u64) -> Option<Violation> {
         }
         if let Some(wms) = nz(op.eff.0) {
             if let Some(start) = op.wait_start_ms {
-                if op.calls.is_empty() && now_ms > start + wms {
+                if op.calls.is_empty() && now_ms > start.saturating_add(wms) {
                     return c10(
                         "wait_timeout_fires",
                         format!("no task is runnable at t={now_ms} ms but a get() waiting since {start} ms with a {wms} ms wait timeout is still waiting"),
@@ -2241,7 +2279,7 @@ pub fn c10_quiescent(w: &mut MWorld, now_ms: u64) -> Option<Violation> {
                 _ => None,
             };
             if let Some(t) = t {
-                if now_ms > c.ms + t {
+                if now_ms > c.ms.saturating_add(t) {
                     return c10(
                         "phase_timeout_fires",
                         format!("no task is runnable at t={now_ms} ms but {} started at {} ms with a {} ms timeout is still in flight", c.kind.name(), c.ms, t),
